@@ -525,3 +525,132 @@ def sentinel_length_rule(rule, w):
             else:
                 rule.ok(key, where, "only consulted when len(%s) == 1" % base)
     return n
+
+
+# --------------------------------------------------------------------------------------
+# in-place arithmetic on a coefficient that may be sparse
+# --------------------------------------------------------------------------------------
+
+_SPARSE_FIXTURE = '''
+def _addterm(self, a, v):
+    c = self._coeff[v]
+    if _ismatrix(a) and a.size == (1, len(v)):
+        if _isdmatrix(c) and c.size == (1, 1):
+            m = a[lg*[0], :]
+            m[::lg+1] += c[0]
+            self._coeff[v] = m
+'''
+
+
+def sparse_inplace_contract(repo):
+    """{'+=': bool, '-=': bool}: does the in-place slot of spmatrix refuse every operand that is not
+    itself sparse?  Read off src/C/sparse.c on every run: the slot function starts with
+    `if (!SpMatrix_Check(other)) PY_ERR_TYPE(..)`."""
+    import os
+    try:
+        src = open(os.path.join(repo, "src", "C", "sparse.c"), errors="replace").read()
+    except OSError:
+        return None
+    out = {}
+    for op, fn in (("+=", "spmatrix_iadd"), ("-=", "spmatrix_isub")):
+        mm = re.search(r"\n%s\s*\(PyObject \*self, PyObject \*other\)\s*\{(.{0,400})" % fn, src, re.S)
+        if not mm:
+            return None
+        out[op] = re.match(r"\s*if\s*\(\s*!\s*SpMatrix_Check\s*\(\s*other\s*\)\s*\)\s*PY_ERR_TYPE", mm.group(1)) is not None
+    return out
+
+
+def _pos_atoms(conds):
+    out = set()
+    for c in conds:
+        for a in pf._flatten_and(c):
+            if a.kind == "atom":
+                out.add(a.args)
+    return out
+
+
+def _sparse_inplace_sites(fn):
+    """[(stmt, base name, source name, verdict, reason)] for `T op= V`, op in +,-, where T is (a
+    subscript of) a local bound to a copy / row selection / the object of a name X that the path
+    admits as `_ismatrix(X)` (dense or sparse)."""
+    out = []
+    for st in pf.stmts_of(fn):
+        if not (isinstance(st, ast.AugAssign) and isinstance(st.op, (ast.Add, ast.Sub))):
+            continue
+        t = st.target
+        while isinstance(t, ast.Subscript):
+            t = t.value
+        if not isinstance(t, ast.Name):
+            continue
+        B = t.id
+        pos = _pos_atoms(pf.path_condition(st, cross_loops=True))
+        # the object B denotes: follow `B = +X`, `B = X[..]`, `B = X`
+        src, seen = B, set()
+        while src not in seen:
+            seen.add(src)
+            binds = [a for a in pf.stmts_of(fn) if isinstance(a, ast.Assign) and len(a.targets) == 1 and isinstance(a.targets[0], ast.Name)
+                     and a.targets[0].id == src and a.lineno < st.lineno]
+            if not binds:
+                break
+            v = binds[-1].value
+            if isinstance(v, ast.UnaryOp) and isinstance(v.op, ast.UAdd):
+                v = v.operand
+            while isinstance(v, ast.Subscript) and isinstance(v.slice, ast.Tuple):
+                v = v.value                      # two-argument indexing keeps the storage class
+            if isinstance(v, ast.Name):
+                src = v.id
+            else:
+                break
+        if "_isdmatrix(%s)" % src in pos or "_isdmatrix(%s)" % B in pos:
+            out.append((st, B, src, "ok", "`%s` is dense on this path" % src))
+            continue
+        if not ("_ismatrix(%s)" % src in pos or "_isspmatrix(%s)" % src in pos):
+            continue                             # storage class unknown: not an instance
+        v = st.value
+        sparse_rhs = (isinstance(v, ast.Call) and pf.norm_expr(v.func) in ("sparse", "spmatrix", "spdiag")) or \
+                     (isinstance(v, ast.Name) and "_isspmatrix(%s)" % v.id in pos)
+        if sparse_rhs:
+            out.append((st, B, src, "ok", "sparse operand"))
+        else:
+            out.append((st, B, src, "bad", "`%s` may be sparse (admitted by _ismatrix(%s)) and `%s` is not a sparse matrix"
+                        % (B, src, pf.norm_expr(v))))
+    return out
+
+
+def sparse_inplace_rule(rule, w, repo):
+    """spmatrix's `+=` / `-=` accept sparse operands only (read off sparse.c).  In modeling.py a
+    coefficient admitted by `_ismatrix(.)` may be sparse: an in-place addition of a number or a
+    dense matrix to it (or to a slice of it) raises TypeError for a valid expression."""
+    m = w.mods["modeling"]
+    contract = sparse_inplace_contract(repo)
+    n = 0
+    if contract is None:
+        rule.undecided("sparse.c:spmatrix_iadd/spmatrix_isub", "src/C/sparse.c", "in-place slots not found")
+        return 0
+    n += 1
+    if not (contract["+="] or contract["-="]):
+        rule.ok("sparse.c:in-place slots accept non-sparse operands", "src/C/sparse.c", "nothing to require of the callers")
+        return n
+    rule.ok("sparse.c:spmatrix += / -= refuse non-sparse operands", "src/C/sparse.c:spmatrix_iadd", "contract read from the slot functions")
+    # self-test on the embedded pre-fix fragment: the rule must fire
+    ft = ast.parse(_SPARSE_FIXTURE)
+    pf.attach_parents(ft)
+    fx = [s for s in _sparse_inplace_sites(ft.body[0]) if s[3] == "bad"]
+    n += 1
+    if len(fx) == 1:
+        rule.ok("self-test:fires on the embedded fragment `m = a[..,:]; m[::k] += c[0]`", "sa/modeling_rules.py")
+    else:
+        rule.undecided("self-test:fires on the embedded fragment", "sa/modeling_rules.py", "the rule no longer recognises its own positive example")
+    for q, fn in m.funcs.items():
+        for st, B, src, verdict, why in _sparse_inplace_sites(fn):
+            n += 1
+            key = "modeling.%s:%s" % (q, pf.norm_expr(st)[:60])
+            if verdict == "ok":
+                rule.ok(key, m.where(st, fn), why)
+            else:
+                rule.violation(key, m.where(st, fn),
+                               why + ": spmatrix refuses the in-place operation ('invalid inplace operation'), so a valid expression "
+                               "(x + x[0], x + sum(x), x + S*x) raises TypeError",
+                               "%s = %s %s .." % (pf.norm_expr(st.target), pf.norm_expr(st.target), "+" if isinstance(st.op, ast.Add) else "-"),
+                               pf.norm_expr(st)[:80])
+    return n
